@@ -353,7 +353,99 @@ def check_defaults(spec, acc):
         core.unload_source(ns)
 
 
+OVERRULED_SRC = '''\
+import icontract
+T = {}
+LOG = []
+class Boom(Exception): pass
+class BoomBase(BaseException): pass
+def c(name):
+    LOG.append(("pre", name))
+    return T.get(name, True)
+def raising_factory(x):
+    LOG.append(("errfac", "a"))
+    raise Boom("the error factory itself fails")
+class RaisingError(Exception):
+    def __init__(self, *args):
+        raise Boom("the error class can not be instantiated")
+class Arg:
+    def __repr__(self):
+        raise BoomBase("repr fails")
+class A1(icontract.DBC):
+    @icontract.require(lambda self, x: c("a"), error=raising_factory)
+    {adef} f(self, x):
+        return 0
+class B1(A1):
+    @icontract.require(lambda self, x: c("b"))
+    {adef} f(self, x):
+        LOG.append(("body",))
+        return 1
+class A2(icontract.DBC):
+    @icontract.require(lambda self, x: c("a"), error=RaisingError)
+    {adef} f(self, x):
+        return 0
+class B2(A2):
+    @icontract.require(lambda self, x: c("b"))
+    {adef} f(self, x):
+        LOG.append(("body",))
+        return 1
+class A3(icontract.DBC):
+    @icontract.require(lambda self, x: c("a"))
+    {adef} f(self, x):
+        return 0
+class B3(A3):
+    @icontract.require(lambda self, x: c("b"), error=ValueError)
+    {adef} f(self, x):
+        LOG.append(("body",))
+        return 1
+'''
+
+
+def check_overruled(acc):
+    """The error of a precondition group that is overruled by a later group is of no concern: whatever creating it would do
+    (a raising factory, an error class that can not be instantiated, an argument whose repr fails while the message is built),
+    the call is accepted iff one group holds."""
+    import icontract
+    for is_async in (False, True):
+        ns = core.load_source(OVERRULED_SRC.replace("{adef}", "async def" if is_async else "def"), "c01o")
+        try:
+            for cls, arg_kind in (("B1", "plain"), ("B2", "plain"), ("B3", "repr_fails")):
+                for a, b in ((True, True), (False, True), (True, False), (False, False)):
+                    def go():
+                        ns["T"].clear()
+                        ns["T"].update({"a": a, "b": b})
+                        del ns["LOG"][:]
+                        x = ns["Arg"]() if arg_kind == "repr_fails" else 5
+                        try:
+                            r = ns[cls]().f(x)
+                            if is_async:
+                                r = core.run_coro(r)
+                            return ("ret", r)
+                        except BaseException as e:  # noqa
+                            return ("exc", type(e).__name__)
+                    out = core.fresh_ctx_run(go)
+                    log = list(ns["LOG"])
+                    holds = a or b
+                    acc.case(("overruled", is_async, cls, a, b), True, len(log), out)
+                    sym = None
+                    if holds and out != ("ret", 1):
+                        sym = "body_not_entered_although_pre_holds"
+                    elif not holds and (out[0] != "exc" or ("body",) in log):
+                        sym = "body_entered_despite_violation"
+                    if sym:
+                        acc.violation(core.Violation(
+                            PROP, sym, {"fam": "overruled_group", "cls": cls, "is_async": is_async, "a": a, "b": b},
+                            "{}.f: base group {} / own group {}: the effective precondition {} but the call gave {} (log {})".format(
+                                cls, a, b, "holds" if holds else "is violated", out, log), spec={"spec": {"fam": "overruled"}}, script=OVERRULED_SRC))
+            acc.sample({"fam": "overruled_group", "async": is_async}, cap=1)
+        finally:
+            core.unload_source(ns)
+
+
 def check_any(spec, acc):
+    if spec.get("fam") == "overruled":
+        check_overruled(acc)
+        return
     if spec.get("fam") == "diamond":
         check_diamond(spec, acc)
     elif spec.get("fam") == "defaults":
@@ -370,7 +462,7 @@ def work(chunk):
 
 
 def run(tier, t0):
-    sp = core.rotate(specs(tier) + diamond_specs(tier) + defaults_specs(tier))
+    sp = core.rotate(specs(tier) + diamond_specs(tier) + defaults_specs(tier)) + [{"fam": "overruled"}]
     tot = core.merge(core.pmap(work, sp))
     return core.finish(
         PROP, tier, tot, t0,
